@@ -225,3 +225,40 @@ CONTRACTS += [
         canary='c16_canary', l0=['A-inspect', 'A-json', 'A-dict'], searchable=False, may_raise=['Opaque'],
     ),
 ]
+
+
+# ------------------------------------------------------------------------------------------------
+# InMemoryCache (C14 / C16: the cache behind `cached` methods when nothing else is configured)
+# ------------------------------------------------------------------------------------------------
+from pyvc.prims import all_of, any_of, same_map
+
+
+def mem_obj():
+    # per-thread tables; one thread (A-thread): this thread's table is the entry under get_ident() == 0
+    return Obj('taskchain.cache:InMemoryCache', _memory=DictOf({0: SymDict(Str, Opt(Val), 'memory')}))
+
+
+def mem_goc(self, old_self, key, force, result, trace):
+    """a stored value - whatever it is, None included - is returned without computing; otherwise (or when forced) the computer
+    runs exactly once, its value is stored under exactly this key and returned; every other entry is untouched"""
+    old = old_self._memory[0]
+    new = self._memory[0]
+    hit = key in old and not force
+    others = all(k == key or (k in new and new[k] == old[k]) for k in old)
+    if trace.count('computer') == 0:
+        return all_of(hit, result == old[key], same_map(new, old))
+    return all_of(not hit, trace.count('computer') == 1, result == trace.ret('computer'), key in new, new[key] == result, others,
+                  len(new) == len(old) + (0 if key in old else 1))
+
+
+def mem_goc_raise(self, old_self, trace):
+    """a raising computer stores nothing"""
+    return trace.count('computer') == 1 and same_map(self._memory[0], old_self._memory[0])
+
+
+CONTRACTS += [
+    Contract(id='C14.mem.get_or_compute', target='taskchain.cache:InMemoryCache.get_or_compute', props={'C14': 'decisive', 'C16': 'supporting'},
+             inputs={'self': mem_obj(), 'key': S(Str, 'key'), 'computer': Fn('computer', [], Opt(Val), may_raise=True, functional=False), 'force': S(Bool, 'force')},
+             ensures={'stored_or_computed_once': 'mem_goc'}, ensures_raise={'raising_computer': 'mem_goc_raise'},
+             l0=['A-dict', 'A-thread'], searchable=False),
+]
